@@ -137,6 +137,7 @@ type vKit struct {
 	minISR   int
 	fetchMax int
 	batch    int
+	pending  map[string][]vRaftOp // ops committed but not yet applied by a lagging follower
 	msgSize  int64
 }
 
@@ -176,7 +177,7 @@ func newVKit(t *testing.T, ns *gnatsd.Server, gate *vFollowGate, n int, minISR, 
 		stream: fmt.Sprintf("s%d", n), subject: fmt.Sprintf("subj%d", n),
 		srv: map[string]*Server{}, isr: map[string]bool{}, hwDisk: map[string]int64{},
 		lastLog: map[string][]vRepRec{}, lastHW: map[string]int64{}, lastIsr: map[string]map[string]int64{},
-		minISR: minISR, fetchMax: fetchMax, batch: batch,
+		minISR: minISR, fetchMax: fetchMax, batch: batch, pending: map[string][]vRaftOp{},
 	}
 	nc, err := nats.Connect(k.url)
 	if err != nil {
@@ -239,7 +240,7 @@ func (k *vKit) newServer(id string) *Server {
 	config.Clustering.MinISR = k.minISR
 	config.Clustering.ReplicaMaxLagTime = 10 * time.Hour
 	config.Clustering.ReplicaMaxLeaderTimeout = 10 * time.Hour
-	config.Clustering.ReplicaFetchTimeout = 500 * time.Millisecond
+	config.Clustering.ReplicaFetchTimeout = 250 * time.Millisecond
 	config.Clustering.ReplicaMaxIdleWait = time.Millisecond
 	config.BatchMaxMessages = 1
 	config.BatchMaxTime = 0
@@ -500,16 +501,22 @@ func (k *vKit) isrOp(f string, shrink bool) string {
 	return ""
 }
 
-func (k *vKit) elect(n string, reach bool) string {
+func (k *vKit) elect(n string, reach bool, lag map[string]bool) string {
 	op := k.commit(&proto.RaftLog{Op: proto.Op_CHANGE_LEADER, ChangeLeaderOp: &proto.ChangeLeaderOp{
 		Stream: k.stream, Partition: 0, Leader: n}})
 	k.leader, k.lepoch = n, op.idx
 	_, nUp := k.srv[n]
 	others := []string{}
 	for _, id := range k.upIDs() {
-		if id != n {
-			others = append(others, id)
+		if id == n {
+			continue
 		}
+		if lag[id] {
+			// this follower learns of the leader change later (ApplyMeta)
+			k.pending[id] = append(k.pending[id], op)
+			continue
+		}
+		others = append(others, id)
 	}
 	applyOthers := func() string {
 		// followers reconcile concurrently (a follower that cannot reach the
@@ -550,6 +557,23 @@ func (k *vKit) elect(n string, reach bool) string {
 	return res
 }
 
+// applyMeta lets a lagging follower apply the operations it has not seen yet.
+func (k *vKit) applyMeta(f string) string {
+	if _, ok := k.srv[f]; !ok {
+		return "down"
+	}
+	ops := k.pending[f]
+	delete(k.pending, f)
+	for _, op := range ops {
+		if err := k.applyTo(f, op, false); err != nil {
+			return "apply-error:" + err.Error()
+		}
+	}
+	k.waitParked()
+	k.settle()
+	return ""
+}
+
 func (k *vKit) hwFile(id string) string {
 	return filepath.Join(k.base, id, "streams", k.stream, "0", "replication-offset-checkpoint")
 }
@@ -568,6 +592,7 @@ func (k *vKit) crash(r string) string {
 	}
 	s.closeNATSConns()
 	delete(k.srv, r)
+	delete(k.pending, r)
 	// process-crash model: log data written so far stays, the HW file holds the
 	// last checkpoint (not the value a clean close writes)
 	if err := os.WriteFile(k.hwFile(r), []byte(strconv.FormatInt(k.hwDisk[r], 10)), 0644); err != nil {
@@ -685,6 +710,7 @@ type vRepState struct {
 	Ec     map[string][]vEpochEntry    `json:"ec"`
 	IsrOff map[string]map[string]int64 `json:"isrOff"`
 	PendN  map[string]int64            `json:"pendN"`
+	Lag    []string                    `json:"lagging"`
 }
 
 func (k *vKit) state() vRepState {
@@ -698,6 +724,12 @@ func (k *vKit) state() vRepState {
 		Up:   map[string]bool{}, Role: map[string]string{}, Log: map[string][]vRepRec{},
 		HW: map[string]int64{}, HWDisk: map[string]int64{}, Ec: map[string][]vEpochEntry{},
 		IsrOff: map[string]map[string]int64{}, PendN: map[string]int64{},
+	}
+	st.Lag = []string{}
+	for _, id := range k.ids {
+		if len(k.pending[id]) > 0 {
+			st.Lag = append(st.Lag, id)
+		}
 	}
 	for _, id := range k.ids {
 		p := k.part(id)
@@ -793,8 +825,24 @@ func (k *vKit) step(id int, step map[string]interface{}) vRepEvent {
 		args["r"], args["reach"] = vStr(step, "r"), vBool(step, "reach")
 		res = k.restart(vStr(step, "r"))
 	case "Elect":
-		args["n"], args["reach"] = vStr(step, "n"), vBool(step, "reach")
-		res = k.elect(vStr(step, "n"), vBool(step, "reach"))
+		lag := map[string]bool{}
+		lagList := []string{}
+		if arr, ok := step["lag"].([]interface{}); ok {
+			for _, x := range arr {
+				lag[x.(string)] = true
+				lagList = append(lagList, x.(string))
+			}
+		}
+		args["n"], args["reach"], args["lag"] = vStr(step, "n"), vBool(step, "reach"), lagList
+		res = k.elect(vStr(step, "n"), vBool(step, "reach"), lag)
+	case "StaleFetch":
+		// the follower still runs its old-epoch loop: one request goes out; the
+		// new leader must ignore it, the request times out, the loop returns
+		args["f"] = vStr(step, "f")
+		res = k.fetch(vStr(step, "f"))
+	case "ApplyMeta":
+		args["f"], args["reach"] = vStr(step, "f"), vBool(step, "reach")
+		res = k.applyMeta(vStr(step, "f"))
 	default:
 		k.t.Fatalf("unknown action %q", a)
 	}
